@@ -5,6 +5,7 @@ mod loops;
 mod net;
 mod props;
 mod report;
+mod s3stub;
 mod seq;
 mod util;
 mod world;
@@ -62,6 +63,11 @@ fn main() {
     }
     if args[1] == "crash-selftest" {
         println!("{:?}", crash::self_test());
+        std::process::exit(0);
+    }
+    if args[1] == "C18W" {
+        props::c18::worker(&args[2..]);
+        world::cleanup_scratch();
         std::process::exit(0);
     }
     if args[1] == "C12ROT" {
